@@ -24,6 +24,22 @@ CLAIMED = {
               "quantifier (comprehensions, lambdas, f-strings) is not exercised."),
         technique="deterministic fault injection at the expression-evaluation seam with a reference interpreter as history oracle",
     ),
+    "C12": dict(
+        category="fault_enumeration",
+        text=("Per generated single-file template (85% laid out over several lines with non-ASCII text before "
+              "expressions): every probe site reached in the fault-free run x each of 21 exception classes (builtin, "
+              "custom with extra constructor arguments, custom __str__, RecursionError, four outside Exception) is made "
+              "to fail in its own render - enumerated, not sampled - plus two-fault plans with an earlier recovered "
+              "failure. Oracle on the raised exception: class preserved (+RenderError iff Exception subclass; "
+              "RecursionError untouched; non-Exceptions never become Exceptions), args / exit code preserved, the first "
+              "(expression, file, line, column) record of the message is an expression unit enclosing the failing call "
+              "at its true position, no stale extra records, nothing returned."),
+        design_ref="DESIGN.md 3.2",
+        note=("Trusted: the generator's site table (offsets recorded while serialising). Multi-file macro / load: "
+              "chains (call-site stacks), <?python ?> blocks and async interrupts between bytecodes are not generated "
+              "yet; ';;' escapes and entities inside tal:define / tal:attributes lists are not generated."),
+        technique="deterministic fault enumeration at the expression-evaluation seam (every reached site x exception zoo) with a generator-known site table as oracle",
+    ),
     "C13": dict(
         category="fault_enumeration",
         text=("Generated templates with tal:on-error on about half of the elements (nested up to depth 3 below the "
@@ -87,7 +103,6 @@ CLAIMED = {
 }
 
 PENDING = {
-    "C12": "claimed by design (DESIGN 3.2) but its check is not built yet in this commit",
 }
 
 NOT_APPLICABLE = {
